@@ -187,7 +187,7 @@ def main():
         keep = ("corpus/", "example/test/string-types", "example/test/raw0", "example/test/macro", "example/test/condition-break2", "example/test/try-nested", "example/test/case2", "example/test/end-match", "example/test/foreach-number")
         ps = [p for p in ps if p["name"].startswith(keep)]
         ps += [p for p in progs.corpus(big=True) if p["name"] in ("example/lexer.nmfu", "example/http.nmfu")]
-    ps += gen.generated_programs(60 if thorough else 12, common.seed())
+    ps += gen.generated_programs(60 if thorough else 20, common.seed())
 
     def extra(prog):
         # options a program needs in order to be accepted at all are forced on
